@@ -197,7 +197,10 @@ pub static YIELD_HOOK: AtomicUsize = AtomicUsize::new(0);
 /// preload form: every thread is subject once initialised
 static ALL_THREADS: AtomicBool = AtomicBool::new(false);
 
+static PRELOAD_NEXT: AtomicUsize = AtomicUsize::new(0);
+
 thread_local! {
+    static PRELOAD_TIDX: Cell<u32> = const { Cell::new(u32::MAX) };
     /// 0 = pass-through; n>0 = simulated thread n-1
     static ACTIVE: Cell<u32> = const { Cell::new(0) };
     /// >0 while inside simlibc itself or the scheduler: pass-through
@@ -216,7 +219,15 @@ pub fn active_tid() -> Option<u32> {
     if a > 0 {
         Some(a - 1)
     } else if ALL_THREADS.load(Ordering::Relaxed) {
-        Some(0)
+        // preload form: threads are numbered in the order of their first intercepted call
+        // (the main thread is 0; anything else means the program started threads of its own)
+        let idx = PRELOAD_TIDX.with(|c| {
+            if c.get() == u32::MAX {
+                c.set(PRELOAD_NEXT.fetch_add(1, Ordering::Relaxed) as u32);
+            }
+            c.get()
+        });
+        Some(idx)
     } else {
         None
     }
@@ -549,6 +560,76 @@ pub unsafe extern "C" fn read(fd: c_int, buf: *mut c_void, count: size_t) -> ssi
 #[no_mangle]
 pub unsafe extern "C" fn write(fd: c_int, buf: *const c_void, count: size_t) -> ssize_t {
     rw_common(true, fd, buf as *mut c_void, count)
+}
+
+/// Positioned I/O: the same rules, caps and trace as read/write (the offset is not modelled:
+/// a shortened transfer is still a legal short transfer at that offset).
+#[no_mangle]
+pub unsafe extern "C" fn pwrite64(fd: c_int, buf: *const c_void, count: size_t, off: off64_t) -> ssize_t {
+    prw_common(true, fd, buf as *mut c_void, count, off)
+}
+
+#[no_mangle]
+pub unsafe extern "C" fn pread64(fd: c_int, buf: *mut c_void, count: size_t, off: off64_t) -> ssize_t {
+    prw_common(false, fd, buf, count, off)
+}
+
+#[no_mangle]
+pub unsafe extern "C" fn pwrite(fd: c_int, buf: *const c_void, count: size_t, off: libc::off_t) -> ssize_t {
+    prw_common(true, fd, buf as *mut c_void, count, off as off64_t)
+}
+
+#[no_mangle]
+pub unsafe extern "C" fn pread(fd: c_int, buf: *mut c_void, count: size_t, off: libc::off_t) -> ssize_t {
+    prw_common(false, fd, buf, count, off as off64_t)
+}
+
+unsafe fn prw_common(is_write: bool, fd: c_int, buf: *mut c_void, count: size_t, off: off64_t) -> ssize_t {
+    let nr = if is_write { libc::SYS_pwrite64 } else { libc::SYS_pread64 };
+    let real = |n: size_t| -> ssize_t { libc::syscall(nr, fd as c_long, buf, n, off as c_long) as ssize_t };
+    let tid = match active_tid() {
+        Some(t) => t,
+        None => return real(count),
+    };
+    maybe_init();
+    let _g = BypassGuard::new();
+    let cls = {
+        let g = SIM.lock().unwrap_or_else(|e| e.into_inner());
+        match g.as_ref() {
+            Some(st) => fd_path(st, fd),
+            None => None,
+        }
+    };
+    let cls = match cls {
+        Some(c) if !c.starts_with('<') => c,
+        _ => return real(count),
+    };
+    let call = if is_write { Call::Write } else { Call::Read };
+    sched_yield(if is_write { SITE_WRITE } else { SITE_READ });
+    let mut g = SIM.lock().unwrap_or_else(|e| e.into_inner());
+    let st = match g.as_mut() {
+        Some(st) => st,
+        None => return real(count),
+    };
+    let (d, rule) = decide(st, tid, call, &cls, count);
+    let (ret, err) = match d {
+        Decision::Fail(e) => (-1, e),
+        Decision::Zero => (0, 0),
+        Decision::Limit(n) => {
+            let r = real(count.min(n));
+            (r, if r < 0 { get_errno() } else { 0 })
+        }
+        Decision::Pass => {
+            let r = real(count);
+            (r, if r < 0 { get_errno() } else { 0 })
+        }
+    };
+    record(st, tid, call, &cls, count as i64, ret as i64, err, rule);
+    drop(g);
+    if ret < 0 {
+        set_errno(err);
+    }
+    ret
 }
 
 /// Vectored I/O is served through the scalar path, one call per invocation on the first
